@@ -237,6 +237,48 @@ CHECKS = {
         "set is recomputed by the harness with the same call; delta accepted up to 1e-3 of the variance; batch sizes > 1 belong "
         "to C05.",
         "5/C09"),
+    "C10": (
+        "Lean 4 proof (constraint rows <=> the documented per-sample conditions; LP/QP weak duality => certified closest / largest feasible scale pair) + exact per-answer certificates",
+        "Theorems in lean/Dreye/Props/C10.lean prove for any number of samples, sources and receptors: the rows the model builds "
+        "are satisfied by (X, s0, s1) iff every sample's fitted total equals s0 x target total within delta_norm1 and its "
+        "offset from the neutral direction equals s1 x target offset within delta_radius in every receptor; the 'unity' "
+        "objective is (w0(s0-1))^2+(w1(s1-1))^2 and 'max' is -(w0 s0+w1 s1); accepted multipliers bound both objectives over "
+        "EVERY feasible (Y, t0, t1); if intensities reproduce all targets then (X,1,1) is feasible with objective 0. Every run "
+        "evaluates on dreye's (X, scales, B_pred): bounds, positive scales, both per-sample conditions, prediction = model "
+        "capture, (1,1) for in-gamut sets, and the optimality certificate (multipliers from HiGHS on the same rows) through the "
+        "verified checker; instances whose constraint set is empty (dreye raises) are recognised by an independent LP.",
+        "Trusted: Lean kernel; cvxpy/CLARABEL is the engine (the default ECOS is not installed here - the solver is passed "
+        "through the documented keyword); the certificate ranges over feasible pairs with both scales <= 1e4 (for 'unity' larger "
+        "scales are trivially worse; for 'max' this is a stated restriction); emptiness of the constraint set is decided by an "
+        "untrusted LP (it only suppresses a 'raises' report).",
+        "5/C10"),
+    "C11": (
+        "Lean 4 proof (descent of alternating (near-)minimisation for any number of iterations; optimality of the factor fitted last from KKT / multipliers) + hook-recorded losses and exact certificates",
+        "Theorems in lean/Dreye/Props/C11.lean prove, abstractly for any loss and any two blocks of variables: an iteration of two "
+        "delta-optimal half-steps over sets containing the current iterate raises the loss by at most 2 delta, after k iterations "
+        "by at most 2 k delta, and with exact half-steps the loss is non-increasing; opacities accepted by the exact KKT check "
+        "are optimal against every opacity vector within bounds; intensities carry a certified gap over bounds + equal-total "
+        "rows. Every run checks on dreye's (X, P, B_pred): source bounds, mask zeros, equal layer totals, opacity bounds, B_pred "
+        "= P X A'^T + baseline, the hook-recorded loss sequence non-increasing, identical arrays for identical seeds, and the "
+        "optimality certificate of whichever factor was fitted last (P per sample after subsampling, X otherwise).",
+        "Trusted: Lean kernel; NMF initialisation (sklearn), cvxpy/solvers and the RNG are engines; determinism per seed is a "
+        "runtime fact checked by byte comparison; the descent theorem applies to the real run only insofar as each half-step is "
+        "near-optimal, which is what the recorded losses are checked against (slack 1e-4 x scale); the hook records the losses.",
+        "5/C11"),
+    "C15": (
+        "Lean 4 proof (exact equivariance of the model: prediction, box, error, argmin, solution polytope) + twin-pair comparison of the implementation",
+        "Theorems in lean/Dreye/Props/C15.lean prove for all s, c > 0, every size and ordered field: the twin system (s c A', c base') "
+        "at intensities x/s predicts c times the capture; x is within bounds iff x/s is within the bounds/s; a target is "
+        "reproducible iff c x target is reproducible in the twin; the weighted squared error scales by c^2; x minimises the "
+        "bounded problem iff x/s minimises the twin; the solution polytopes correspond under x -> x/s (so ranges scale by "
+        "exactly 1/s). Every run compares pairs (problem, twin) with power-of-two unit changes that keep both in the "
+        "well-scaled regime (including weak broad sources with large bounds and changes up to x32): gamut membership, ranges, "
+        "uniquely determined intensities, predictions and errors, default and high-accuracy solver, and the exact model's "
+        "ranges on both twins; unit changes up to 2^+-13 are stress-explored and only recorded.",
+        "Trusted: Lean kernel; the solvers' absolute tolerances are the runtime effect the model cannot exhibit: pairs are "
+        "compared at twice the C04 tolerance in capture units, intensities at that tolerance times ||pinv(A)||; both twins "
+        "raising the same error (singular column sub-matrix) counts as equivariant.",
+        "5/C15"),
 }
 
 NOT_YET = "check not built yet in this round of work (planned in DESIGN.md section 5); no claim is made"
